@@ -659,7 +659,7 @@ def rexpr(e):
     if k == "lam":
         if e.get("us"):
             return "_." + e["us"]
-        return "fun %s -> %s" % (" ".join(e["params"]), rexpr(e["body"]["fin"]))
+        return "fun %s -> %s" % (" ".join(e["params"]) or "()", rexpr(e["body"]["fin"]))
     if k == "ctor":
         targs = ("<" + ", ".join(e["targs"]) + ">") if e.get("targs") else ""
         if e["arg"]["k"] == "none":
@@ -993,6 +993,19 @@ def kernels(start_id):
                                             "b": {"k": "app", "f": "slice.Map", "args": [{"k": "lam", "params": ["x"], "body": {"stmts": [], "fin": {"k": "probe", "tag": T(0), "e": {"k": "bin", "op": "*", "a": {"k": "var", "x": "x"}, "b": {"k": "int", "v": 2}}}}}]}},
                          "b": {"k": "app", "f": "slice.Filter", "args": [{"k": "lam", "params": ["y"], "body": {"stmts": [], "fin": {"k": "bin", "op": ">", "a": {"k": "probe", "tag": T(1), "e": {"k": "var", "x": "y"}}, "b": {"k": "int", "v": 2}}}}]}}},
         ("sl", INT))
+    # K6u lambdas with a unit parameter: the body runs at every call, not at the definition (defect 28 of DESIGN section 6)
+    ulam = lambda tag, v: {"k": "lam", "params": [], "body": {"stmts": [], "fin": _pi(tag, v)}}
+    add([], [], {"stmts": [{"k": "let", "x": "f", "e": ulam(T(0), 5)}, {"k": "mark", "tag": T(1)},
+                           {"k": "let", "x": "a", "e": {"k": "app", "f": "f", "args": [{"k": "unit"}]}}, {"k": "mark", "tag": T(2)}],
+                 "fin": {"k": "bin", "op": "+", "a": {"k": "var", "x": "a"}, "b": {"k": "app", "f": "f", "args": [{"k": "unit"}]}}})
+    for ncalls in (0, 1, 2):
+        fn = "p%dapply0" % pid[0]
+        calls = [{"k": "app", "f": "g", "args": [{"k": "unit"}]} for _ in range(ncalls)]
+        fin = {"k": "int", "v": 1}
+        for c in calls:
+            fin = {"k": "bin", "op": "+", "a": fin, "b": c}
+        f = {"name": fn, "params": ["g"], "ptypes": [("raw", "()->int")], "rtype": INT, "body": {"stmts": [{"k": "mark", "tag": T(3)}], "fin": fin}}
+        add([], [f], {"stmts": [{"k": "mark", "tag": T(4)}], "fin": {"k": "app", "f": fn, "args": [ulam(T(0), 7)]}})
     # K7 recursion: linear, double (order of the two calls), accumulator through a slice, under a match on a recursive union
     def v(x):
         return {"k": "var", "x": x}
